@@ -112,6 +112,10 @@ impl<'a> Reader<'a> {
     fn peek(&mut self) -> u8 {
         if self.begin == self.end {
             self.refill();
+            if self.begin == self.end {
+                // end of input: there is no next byte, do not report a stale one
+                return 0;
+            }
         }
         self.buf[self.begin]
     }
